@@ -225,7 +225,8 @@ class Rules:
         # R8
         src = self.regex_rule('R8', fname, src, r'debug_assert_eq!\(([^;]+?), ([^;,]+?)\);', r'debug_assert!(\1 == \2);')
         # R9
-        src = self.regex_rule('R9', fname, src, r'(?:std::arch::)?is_(?:x86|aarch64)_feature_detected!\("(\w+)"\)', r'crate::vprelude::detect_\1()')
+        src = self.regex_rule('R9', fname, src, r'(?:std::arch::)?is_(?:x86|aarch64)_feature_detected!\("([\w.]+)"\)',
+                              lambda m: 'crate::vprelude::detect_%s()' % m.group(1) if m.group(1) in ('avx2', 'ssse3', 'neon') else 'crate::vprelude::detect_other_feature()')
         # R1
         def static_rule(m):
             name, ty, init = m.group(1), m.group(2), m.group(3)
